@@ -1,6 +1,6 @@
 (* C08 - a validated cast type can only ever be a type name.  Statements only. *)
-From Coq Require Import String List Ascii NArith Bool.
-From QRB Require Import Base.Bytes Pg.Lexer Meta.LexCtrl Meta.Regex Meta.RegexLang Meta.Product Meta.Safe.
+From Coq Require Import String List Ascii NArith ZArith Bool.
+From QRB Require Import Base.Bytes Pg.Lexer Meta.LexCtrl Meta.Regex Meta.RegexLang Meta.Product Meta.Safe Meta.MultiByte.
 From QRB Require Import Gen.Regex Obl.PatternSafe.
 Import ListNotations.
 
@@ -21,6 +21,30 @@ Proof.
   - exact H.
 Qed.
 
+(* ... and the same holds for the bytes themselves: a non-ASCII rune of the name is 1 to 4 bytes >= 0x80 (an invalid
+   sequence is what Go's regexp reads as U+FFFD, one byte at a time); the lexer's control treats all such bytes
+   alike and is not changed by further ones (Meta/MultiByte.v), so the token kinds of the real text are those of
+   the text with one byte per rune *)
+Theorem C08_safe_bytes :
+  forall s, re_match minterm_table type_re s = true ->
+    let l := decode_syms minterm_table s in
+    uamp_run true LInit l = true \/ has_nul l = true \/
+    exists ts, lex_from true LInit s = Some ts /\
+               (oaccept true (shape_of true (map tkind ts)) = true \/ shape_of true (map tkind ts) = OKF).
+Proof.
+  intros s H. cbv zeta. destruct (C08_safe s H) as [A|[A|A]]; [now left|right; now left|right; right].
+  exact (multibyte_transfer true minterm_table s
+           (fun ks => oaccept true (shape_of true ks) = true \/ shape_of true ks = OKF) A).
+Qed.
+
+(* non-vacuity: a name with 2-, 3- and 4-byte runes *)
+Example C08_multibyte_example :
+  let s := String.append "na" (String.append (utf8_encode 233%Z) (String.append (utf8_encode 20013%Z) (utf8_encode 119964%Z))) in
+  String.length s = 11%nat /\ re_match minterm_table type_re s = true /\
+  option_map (map tkind) (lex_from true LInit s) = Some [KWord false].
+Proof. vm_compute. repeat split. Qed.
+
+
 Example C08_refuted_uescape :
   re_match minterm_table type_re "int(3) UESCAPE '!' [ 1 ]" = true /\
   option_map (map tkind) (pg_lex true "int(3) UESCAPE '!' [ 1 ]") =
@@ -33,3 +57,5 @@ Example C08_accepts :
 Proof. repeat split; vm_compute; reflexivity. Qed.
 
 Print Assumptions C08_safe.
+Print Assumptions C08_safe_bytes.
+Print Assumptions C08_multibyte_example.
